@@ -41,6 +41,10 @@ func main() {
 		fmt.Fprintln(os.Stderr, "unknown check", id)
 		os.Exit(2)
 	}
+	if replay == "" {
+		// replays of earlier runs are stale
+		os.RemoveAll(filepath.Join(core.VerifDir, "replays", id))
+	}
 	c := core.NewCtx(id, tier)
 	func() {
 		defer func() {
